@@ -34,9 +34,11 @@ def item_lists():
         yield out
 
 
-@contract("aiohomekit.protocol.tlv:TLV.encode_list", prop="C15")
+@contract("aiohomekit.protocol.tlv:TLV.encode_list", prop="C15", modular=True)
 class EncodeList:
     params = {"d": Items}
+    returns = ByteArray
+    raises_exact = True
 
     def invalid_item(d):
         """ValueError only for a type outside 0..255 or a separator carrying data"""
@@ -84,9 +86,11 @@ def _expected(it):
     return it.fresh(Ints, "arg_expected")
 
 
-@contract("aiohomekit.protocol.tlv:TLV.decode_bytearray", prop="C15")
+@contract("aiohomekit.protocol.tlv:TLV.decode_bytearray", prop="C15", modular=True)
 class DecodeBytearray:
     params = {"ba": ByteArray, "expected": _expected}
+    returns = DItems
+    raises_exact = True
 
     def malformed(ba, expected):
         return not dec_ok(ba, [] if expected is None else expected)
@@ -132,3 +136,35 @@ class DecodeBytearray:
             yield {"ba": bytearray(s_), "expected": None}
             yield {"ba": bytearray(s_), "expected": [1, 2]}
             yield {"ba": bytearray(s_), "expected": []}
+
+
+def _bs(it):
+    """bytes or bytearray argument"""
+    return it.fresh(Bytes if it.ctx.choose(["bytes", "bytearray"]) == "bytes" else ByteArray, "arg_bs")
+
+
+@contract("aiohomekit.protocol.tlv:TLV.decode_bytes", prop="C15", modular=True)
+class DecodeBytes:
+    """the bytes-or-bytearray front door; call sites in other functions under contract use this
+    contract (not the body)"""
+
+    params = {"bs": _bs, "expected": _expected}
+    returns = DItems
+    raises_exact = True
+
+    def malformed(bs, expected):
+        return not dec_ok(bytearray(bs), [] if expected is None else expected)
+
+    raises = {TlvParseException: malformed}
+
+    def total(bs, expected):
+        return dec_ok(bytearray(bs), [] if expected is None else expected)
+
+    def value(bs, expected, result):
+        return result == dec_from([], bytearray(bs), [] if expected is None else expected)
+
+    ensures = [total, value]
+
+    def corpus():
+        for a in DecodeBytearray.corpus():
+            yield {"bs": bytes(a["ba"]), "expected": a["expected"]}
